@@ -13,6 +13,7 @@ type c07Tpl struct {
 	deps   []string
 	target string
 	marks  []string // start markers of the target's Go text
+	extra  string   // an unrelated definition that names the template's own types (the target does not use it)
 }
 
 var c07Templates = []c07Tpl{
@@ -24,6 +25,7 @@ var c07Templates = []c07Tpl{
 		},
 		target: "let half () =\n  width\n\nlet tgt (r:Rec) (u:Uni) =\n  let n = match u with\n          | A i -> i\n          | B -> 0\n  helper n + r.X + width\n",
 		marks:  []string{"func half(", "func tgt("},
+		extra:  "let recx (r:Rec) (u:Uni) =\n  r.X\n",
 	},
 	{
 		deps: []string{
@@ -33,6 +35,7 @@ var c07Templates = []c07Tpl{
 		},
 		target: "let tgt (a:int) =\n  let p = {X=idf a; Y=cst ()}\n  let q = {X=p.Y; Y=idf 2}\n  (p, q)\n",
 		marks:  []string{"func tgt("},
+		extra:  "let ptx (p:Pt) =\n  p.X\n",
 	},
 	{
 		deps: []string{
@@ -42,6 +45,18 @@ var c07Templates = []c07Tpl{
 		},
 		target: "type Tree =\n  | Lf of Leaf\n  | Nd of Pair\nand Pair = {L: Tree; R: Tree}\n",
 		marks:  []string{"type Tree interface", "type Tree_Nd struct", "type Pair struct", "func New_Tree_Lf("},
+		extra:  "let leafV (l:Leaf) =\n  l.V\n",
+	},
+	{
+		// a record with a forward field reference inside an 'and' group, used through a literal
+		deps: []string{
+			"type Order = {Id: int; Ship: Addr}\nand Addr = {City: string; Zip: int}\n",
+			"let one () =\n  1\n",
+			"let two () =\n  2\n",
+		},
+		target: "let mkOrder a =\n  {Id=one (); Ship=a}\n\nlet cityOf (o:Order) =\n  o.Ship.City\n",
+		marks:  []string{"func mkOrder", "func cityOf("},
+		extra:  "let zipOf (o:Order) =\n  o.Ship.Zip + two ()\n",
 	},
 }
 
@@ -294,8 +309,8 @@ func Harness_C07_PackageInfoNames() {
 		verifAssert(ok, "target found in the baseline output")
 		want = append(want, w)
 	}
-	tys := [][]string{{"Rec", "Uni"}, {"Pt", "Pt"}, {"Leaf", "Leaf"}}[t]
-	fns := [][]string{{"helper", "width"}, {"idf", "cst"}, {"one", "two"}}[t]
+	tys := [][]string{{"Rec", "Uni"}, {"Pt", "Pt"}, {"Leaf", "Leaf"}, {"Order", "Addr"}}[t]
+	fns := [][]string{{"helper", "width"}, {"idf", "cst"}, {"one", "two"}, {"one", "two"}}[t]
 	var pi string
 	switch verifChoice("kind", 3) {
 	case 0: // external types
@@ -328,6 +343,49 @@ func Harness_C07_PackageInfoNames() {
 		got, ok := c07Extract(vg[fileOfTarget], m)
 		verifAssert(ok, "target found in the variant output")
 		verifAssert(got == want[k], "the target's Go text does not depend on names declared inside an unrelated package_info block")
+	}
+	verifCover("end")
+}
+
+// an unrelated definition that NAMES the types the target uses (an annotation
+// mentioning a record of the dependencies) present or absent, before or after
+// the target, in the same or an earlier file: global per-type tables must not
+// carry anything from it into the target
+func Harness_C07_TypeNamingNeighbour() {
+	t := verifChoice("template", len(c07Templates))
+	tpl := c07Templates[t]
+	base := "package main\n\n"
+	for _, d := range tpl.deps {
+		base += d + "\n"
+	}
+	bg, bcode := c07Run([]string{"b.fo"}, []string{base + tpl.target})
+	verifAssert(bcode == 0, "the minimal package is accepted: "+verifStdout())
+	var want []string
+	for _, m := range tpl.marks {
+		w, ok := c07Extract(bg[0], m)
+		verifAssert(ok, "target found in the baseline output")
+		want = append(want, w)
+	}
+	var files, contents []string
+	fileOfTarget := 0
+	switch verifChoice("place", 4) {
+	case 0: // before the target
+		files, contents = []string{"v0.fo"}, []string{base + tpl.extra + "\n" + tpl.target}
+	case 1: // after the target
+		files, contents = []string{"v0.fo"}, []string{base + tpl.target + "\n" + tpl.extra}
+	case 2: // at the end of an earlier file
+		files, contents = []string{"v0.fo", "v1.fo"}, []string{base + tpl.extra, "package main\n\n" + tpl.target}
+		fileOfTarget = 1
+	default: // in a file of its own between the dependencies and the target
+		files, contents = []string{"v0.fo", "v1.fo", "v2.fo"}, []string{base, "package main\n\n" + tpl.extra, "package main\n\n" + tpl.target}
+		fileOfTarget = 2
+	}
+	vg, vcode := c07Run(files, contents)
+	verifAssert(vcode == 0, "the variant package is accepted: "+verifStdout())
+	for k, m := range tpl.marks {
+		got, ok := c07Extract(vg[fileOfTarget], m)
+		verifAssert(ok, "target found in the variant output")
+		verifAssert(got == want[k], "the target's Go text does not depend on an unrelated definition that names the same types")
 	}
 	verifCover("end")
 }
